@@ -30,33 +30,39 @@ def lambertW (z : Float) : Float :=
     let d := e * (w + 1.0) - (w + 2.0) * f / (2.0 * w + 2.0)
     if d == 0.0 then w else w - f / d) w0
 
-/-- `proj_simplex` as coded: sort descending, `x_avrg = (1/j)*(cumsum - d)`,
-`crit = x_sor - x_avrg`, `i = max {k | crit_k >= 0}`, result `max(x - x_avrg[i], 0)`. -/
-def simplexF (n : Nat) (d : Float) (v : Vec Float) : Vec Float :=
-  let xs := ((List.range n).map v).toArray.qsort (fun a b => a > b)
-  let (_, avrg) := (List.range n).foldl (fun (acc : Float × Array Float) k =>
-      let c := acc.1 + xs.getD k 0.0
-      (c, acc.2.push ((1.0 / (Float.ofNat (k + 1))) * (c - d)))) (0.0, #[])
-  let idx := (List.range n).foldl (fun best k =>
-      if xs.getD k 0.0 - avrg.getD k 0.0 >= 0.0 then k else best) 0
-  let th := avrg.getD idx 0.0
-  fun i => let t := v i - th; if t >= 0.0 then t else 0.0
+/-- First `n` entries as an array. -/
+def firstN (n : Nat) (v : Vec Float) : Array Float := ((List.range n).map v).toArray
 
-/-- `ProximalSimplex` on an array-weighted space as coded: order = argsort(-(w*x));
-`tau = (cumsum(x[order]) - d) / cumsum(1/w[order])`; `i = max {k | (w*x)[order][k] - tau_k >= 0}`;
-result `max(x - tau_i / w, 0)`. -/
-def wsimplexF (n : Nat) (d : Float) (v w : Vec Float) : Vec Float :=
-  let idx := ((List.range n).toArray.qsort (fun a b => w a * v a > w b * v b))
-  let (_, _, tau) := (List.range n).foldl (fun (acc : Float × Float × Array Float) k =>
-      let j := idx.getD k 0
-      let c := acc.1 + v j
-      let cw := acc.2.1 + 1.0 / w j
+def sortAscF (n : Nat) (v : Vec Float) : Vec Float :=
+  let a := (firstN n v).qsort (fun p q => p < q)
+  fun i => a.getD i nanF
+
+def revF (n : Nat) (v : Vec Float) : Vec Float := fun i => if i < n then v (n - 1 - i) else nanF
+
+/-- `(1 / j) * (np.cumsum(a) - d)` -/
+def cumAvgF (n : Nat) (d : Float) (v : Vec Float) : Vec Float :=
+  let (_, out) := (List.range n).foldl (fun (acc : Float × Array Float) k =>
+      let c := acc.1 + v k
+      (c, acc.2.push ((1.0 / (Float.ofNat (k + 1))) * (c - d)))) (0.0, #[])
+  fun i => out.getD i nanF
+
+def lastNonnegF (n : Nat) (v : Vec Float) : Float :=
+  Float.ofNat ((List.range n).foldl (fun best k => if v k >= 0.0 then k else best) 0)
+
+/-- `np.argsort(-a)` -/
+def argsortDescF (n : Nat) (v : Vec Float) : Vec Float :=
+  let idx := (List.range n).toArray.qsort (fun p q => v p > v q)
+  fun i => Float.ofNat (idx.getD i 0)
+
+def takeF (v order : Vec Float) : Vec Float := fun i => v (order i).toUInt64.toNat
+
+/-- `(np.cumsum(xo) - d) / np.cumsum(1 / wo)` -/
+def wtauF (n : Nat) (d : Float) (xo wo : Vec Float) : Vec Float :=
+  let (_, _, out) := (List.range n).foldl (fun (acc : Float × Float × Array Float) k =>
+      let c := acc.1 + xo k
+      let cw := acc.2.1 + 1.0 / wo k
       (c, cw, acc.2.2.push ((c - d) / cw))) (0.0, 0.0, #[])
-  let best := (List.range n).foldl (fun best k =>
-      let j := idx.getD k 0
-      if w j * v j - tau.getD k 0.0 >= 0.0 then k else best) 0
-  let th := tau.getD best 0.0
-  fun i => let t := v i - th / w i; if t >= 0.0 then t else 0.0
+  fun i => out.getD i nanF
 
 /-- `n` base size, `mc` number of components (power space), `w` constant weighting,
 `p` exponent of PowerOperator. -/
@@ -83,8 +89,14 @@ def floatFns (n mc : Nat) (w p : Float) : Fns Float where
   invSize := 1.0 / Float.ofNat (n * mc)
   pwnorm := fun v j => Float.sqrt (sumN mc (fun c => v (c * n + j) * v (c * n + j)))
   pdiv := fun a d k => a k / d (k % n)
-  simplex := simplexF (n * mc)
-  wsimplex := wsimplexF (n * mc)
+  sortAsc := sortAscF (n * mc)
+  rev := revF (n * mc)
+  cumAvg := cumAvgF (n * mc)
+  lastNonneg := lastNonnegF (n * mc)
+  toIdx := fun k => k.toUInt64.toNat
+  argsortDesc := argsortDescF (n * mc)
+  take := takeF
+  wtau := wtauF (n * mc)
   bidx := fun k => k % n
 
 def parseId (name : String) (f : String) : Option ProxId :=
